@@ -24,6 +24,7 @@ import zlib
 sys.path.insert(0, os.path.dirname(os.path.dirname(os.path.abspath(__file__))))
 sys.path.insert(0, os.path.join(os.path.dirname(os.path.dirname(os.path.abspath(__file__))), "impl"))
 import common  # noqa: E402
+import gen_c13  # noqa: E402
 import c13_shared as sh  # noqa: E402
 
 NPROC = min(12, common.NCPU)
@@ -671,6 +672,19 @@ def search_failing(ctx, n=300):
     return None
 
 
+def regenerate(ctx):
+    """Gen/C13_Constants.v from the live module + the structural facts the model assumes (fail-closed)"""
+    try:
+        _, changed, facts = gen_c13.generate()
+    except Exception as e:  # noqa
+        ctx.violation("cannot regenerate Gen/C13_Constants.v from joblib.compressor: %s" % e,
+                      {"kind": "regeneration"}, found_input=False)
+        return ["regeneration failed"]
+    if changed:
+        ctx.note("Gen/C13_Constants.v changed: %s" % {k: v for k, v in facts.items() if k != "assumption_failures"})
+    return facts["assumption_failures"]
+
+
 def run(ctx):
     quick = ctx.tier == "quick"
     trusted = [
@@ -684,6 +698,7 @@ def run(ctx):
         "harness: generators, canonicalisation (chunks are compared through (start,len) in an index payload and "
         "sha1 of the real bytes), the BytesIO reference oracle",
     ]
+    structural = regenerate(ctx)
     proofs_ok = ctx.standard_proof_stage("C13", search=lambda: search_failing(ctx))
     stats = {"ops_judged": 0, "model_evals": 0, "blocks": {}, "scripts_with_empty_block": 0, "with_trailer": 0,
              "truncated": 0, "nontrivial": set()}
@@ -738,6 +753,13 @@ def run(ctx):
     for bad, c, r in oracle_fail[:3]:
         ctx.violation(bad, {"kind": "oracle", "case": c, "impl": _short(r)}, True)
     broken = disagree + script_fail
+    if structural and not oracle_fail and not broken:
+        hit = search_failing(ctx, 400 if quick else 3000)
+        if hit:
+            ctx.violation(hit[0], {"kind": "model-assumption+failing-input", "case": hit[1], "assumptions": structural}, True)
+        else:
+            ctx.violation("a structural assumption of the model no longer holds: " + "; ".join(structural),
+                          {"kind": "model-assumption", "assumptions": structural}, found_input=False)
     if broken and not oracle_fail:
         hit = search_failing(ctx, 400 if quick else 3000)
         if hit:
